@@ -6,8 +6,9 @@
 //! targets: class (duke::read_class, then write_class of what was read), tiny, tinydiff, enigma, nests, fdesc / mdesc / rdesc
 //! byte ops : ["set", span index, value] (big endian into the span), ["trunc", n], ["byte", offset, value]
 //! text ops : ["dropcell", line, cell] ["addcell", line] ["emptycell", line, cell] ["indent", line, delta] ["tag", line]
-//!            ["dupline", line] ["delline", line] ["nonutf8", line] ["trunc", n]
-//! char ops : ["delchar", i] ["dupchar", i] ["setchar", i, s]
+//!            ["dupline", line] ["delline", line] ["nonutf8", line] ["trunc", n] ["backslash", line] ["esc" | "escz", line, follower kind]
+//!            ["unicell" | "unichar", line, cell]
+//! char ops : ["delchar", i] ["dupchar", i] ["setchar", i, s] ["setuni", i, k]
 use std::io::{BufRead, BufReader, Write};
 use std::process::{Child, ChildStdin, Command, Stdio};
 use std::sync::mpsc::{channel, Receiver};
@@ -83,6 +84,10 @@ pub fn seeds_json(tier: &str) -> Result<Vec<Value>> {
 	Ok(out)
 }
 
+/// characters of 2 / 3 / 4 bytes in UTF-8; what may follow a backslash (fault model: EscKinds)
+const UNI: [char; 3] = ['\u{e9}', '\u{20ac}', '\u{1d11e}'];
+const ESC_FOLLOW: [&str; 8] = ["\u{e9}", "\u{20ac}", "\u{1d11e}", "\\", "n", "t", "0", "u"];
+
 pub fn apply(seed: &Seed, ops: &Value) -> Result<Vec<u8>> {
 	let mut b = seed.bytes.clone();
 	let textual = seed.spans.is_empty();
@@ -101,11 +106,11 @@ pub fn apply(seed: &Seed, ops: &Value) -> Result<Vec<u8>> {
 					if sp.off + k < b.len() { b[sp.off + k] = ((v >> shift) & 0xff) as u8; }
 				}
 			},
-			"delchar" | "dupchar" | "setchar" => {
+			"delchar" | "dupchar" | "setchar" | "setuni" => {
 				let mut cs: Vec<char> = String::from_utf8_lossy(&b).chars().collect();
 				let i = (n(1).max(0) as usize).min(cs.len().saturating_sub(1));
 				if !cs.is_empty() {
-					match name { "delchar" => { cs.remove(i); }, "dupchar" => { let c = cs[i]; cs.insert(i, c); }, _ => { cs[i] = op[2].as_str().and_then(|s| s.chars().next()).unwrap_or('x'); } }
+					match name { "delchar" => { cs.remove(i); }, "dupchar" => { let c = cs[i]; cs.insert(i, c); }, "setuni" => { cs[i] = UNI[(n(2).max(0) as usize) % 3]; }, _ => { cs[i] = op[2].as_str().and_then(|s| s.chars().next()).unwrap_or('x'); } }
 				}
 				b = cs.into_iter().collect::<String>().into_bytes();
 			},
@@ -126,11 +131,20 @@ pub fn apply(seed: &Seed, ops: &Value) -> Result<Vec<u8>> {
 						"tag" => { cells[0] = "zz".into(); },
 						"dupline" => { let l = lines[li].clone(); lines.insert(li, l); },
 						"delline" => { lines.remove(li); },
+						"esc" | "escz" => {
+							let mut l = lines[li].clone();
+							l.push(b'\\');
+							l.extend_from_slice(ESC_FOLLOW[(n(2).max(0) as usize) % ESC_FOLLOW.len()].as_bytes());
+							if name == "escz" { l.extend_from_slice(b"z z"); }
+							raw = Some(l);
+						},
+						"unicell" => { cells[ci] = UNI.iter().collect(); },
+						"unichar" => { cells[ci] = format!("{}{}", UNI[(li + ci) % 3], cells[ci]); },
 						"backslash" => { let mut l = lines[li].clone(); l.push(b'\\'); raw = Some(l); },
 						"nonutf8" => { let mut l = lines[li].clone(); l.extend_from_slice(&[0xff, 0xfe, 0xc0]); raw = Some(l); },
 						o => bail!("unknown text op {o}"),
 					}
-					if matches!(name, "dropcell" | "addcell" | "emptycell" | "indent" | "tag") {
+					if matches!(name, "dropcell" | "addcell" | "emptycell" | "indent" | "tag" | "unicell" | "unichar") {
 						let s = format!("{}{}", "\t".repeat(ind as usize), cells.join(&sep(seed.target).to_string()));
 						lines[li] = s.into_bytes();
 					}
@@ -431,7 +445,7 @@ pub fn gen(seed: u64, n: usize) -> Result<Vec<Value>> {
 			} else {
 				let nl = String::from_utf8_lossy(&s.bytes).lines().count().max(1);
 				let l = r.gen_range(0..nl);
-				ops.push(match r.gen_range(0..9) { 0 => json!(["dropcell", l, r.gen_range(0..4)]), 1 => json!(["addcell", l]), 2 => json!(["emptycell", l, r.gen_range(0..4)]), 3 => json!(["indent", l, 1]),
+				ops.push(match r.gen_range(0..13) { 9 => json!(["esc", l, r.gen_range(0..8)]), 10 => json!(["escz", l, r.gen_range(0..8)]), 11 => json!(["unicell", l, r.gen_range(0..4)]), 12 => json!(["unichar", l, r.gen_range(0..4)]), 0 => json!(["dropcell", l, r.gen_range(0..4)]), 1 => json!(["addcell", l]), 2 => json!(["emptycell", l, r.gen_range(0..4)]), 3 => json!(["indent", l, 1]),
 					4 => json!(["indent", l, -1]), 5 => json!(["tag", l]), 6 => json!(["dupline", l]), 7 => json!(["nonutf8", l]), _ => json!(["trunc", r.gen_range(0..s.bytes.len())]) });
 			}
 		}
